@@ -636,3 +636,112 @@ V('c04-twin-augassign', 'C04', 'R4.1', DICTMBX,
   '''            self._max_uid += 1
             new_uid = self._max_uid
             message = Message(new_uid, when,''', expect='silent')
+
+# ---------------------------------------------------------------- C20
+CONC = 'pymap/concurrent.py'
+MIO = 'pymap/backend/maildir/io.py'
+V('c20-revert-asyncio', 'C20', 'R20.1', CONC,
+  '''    async def _acquire_read(self) -> None:
+        async with self._read_lock:
+            if self._counter == 0:
+                await self._write_lock.acquire()
+            self._counter += 1
+''', '''    async def _acquire_read(self) -> None:
+        async with self._read_lock:
+            self._counter += 1
+            first = self._counter == 1
+        if first:
+            await self._write_lock.acquire()
+''')
+V('c20-count-before-acquire', 'C20', 'R20.2', CONC,
+  '''        async with self._read_lock:
+            if self._counter == 0:
+                await self._write_lock.acquire()
+            self._counter += 1
+''', '''        async with self._read_lock:
+            self._counter += 1
+            if self._counter == 1:
+                await self._write_lock.acquire()
+''')
+V('c20-threading-outside', 'C20', 'R20.1', CONC,
+  '''    def _acquire_read(self) -> None:
+        with self._read_lock:
+            if self._counter == 0:
+                self._write_lock.acquire()
+            self._counter += 1
+''', '''    def _acquire_read(self) -> None:
+        with self._read_lock:
+            first = self._counter == 0
+            self._counter += 1
+        if first:
+            self._write_lock.acquire()
+''')
+V('c20-sleep-before-try', 'C20', 'R20.2', CONC,
+  '''        await self._acquire_read()
+        try:
+            yield
+        finally:
+            await self._release_read()''', '''        await self._acquire_read()
+        await asyncio.sleep(0)
+        try:
+            yield
+        finally:
+            await self._release_read()''')
+V('c20-no-finally', 'C20', 'R20.2', CONC,
+  '''        await self._acquire_read()
+        try:
+            yield
+        finally:
+            await self._release_read()''', '''        await self._acquire_read()
+        yield
+        await self._release_read()''')
+V('c20-filelock-yield-unprotected', 'C20', 'R20.3', CONC,
+  '''            if self._try_lock():
+                try:
+                    yield
+                finally:
+                    self._unlock()
+                break''', '''            if self._try_lock():
+                yield
+                self._unlock()
+                break''')
+V('c20-filelock-open-w', 'C20', 'R20.4', CONC,
+  "with open(self._path, 'x'):", "with open(self._path, 'w'):")
+V('c20-filelock-ignore-trylock', 'C20', 'R20.4', CONC,
+  '''        if self._check_lock() and self._try_lock():
+            try:''', '''        if self._check_lock() or self._try_lock():
+            try:''')
+V('c20-bare-lock-call', 'C20', 'R20.5', DICTMBX,
+  '''        async with self._set_lock.write_lock():
+            self._subscribed[name] = subscribed''',
+  '''        self._set_lock.write_lock()
+        self._subscribed[name] = subscribed''')
+V('c20-variants-disagree', 'C20', 'R20.6', CONC,
+  '''    def _release_read(self) -> None:
+        with self._read_lock:
+            self._counter -= 1
+            if self._counter == 0:
+                self._write_lock.release()''',
+  '''    def _release_read(self) -> None:
+        with self._read_lock:
+            self._counter -= 1
+            if self._counter <= 1:
+                self._write_lock.release()''')
+# twin
+V('c20-twin-inline', 'C20', 'R20.1', CONC,
+  '''    @asynccontextmanager
+    async def read_lock(self) -> AsyncIterator[None]:
+        await self._acquire_read()
+        try:
+            yield
+        finally:
+            await self._release_read()''', '''    @asynccontextmanager
+    async def read_lock(self) -> AsyncIterator[None]:
+        async with self._read_lock:
+            if self._counter == 0:
+                await self._write_lock.acquire()
+            self._counter += 1
+        try:
+            yield
+        finally:
+            await self._release_read()''', expect='silent')
